@@ -43,7 +43,8 @@ def runs(rng, tier):
         out.append([rng.below(1 << 30), 100, 'jtswap', 8, '--pika:threads=3', '--pika:scheduler=local-priority-fifo'])
         out.append([rng.below(1 << 30), 0, 'jtswap', 8, '--pika:threads=1', '--pika:scheduler=static'])
     # directed, one worker: an interruption already pending when join() is entered, handled by the user code, followed by a
-    # second join (monitors only, see lean/Driver/JoinDrv.lean)
+    # second join (follow-up C13j: replayed through the acceptor JoinCatch = the join acceptor + the handler of the user code,
+    # theorems Props/C13j.lean; the driver infers the handler event and cross-checks its counters with the harness' stat line)
     for pol in POLICIES[:3]:
         out.append([rng.below(1 << 30), 0, 'joinpend', 1, '--pika:threads=1', f'--pika:scheduler={pol}'])
     # directed: interrupt() on a finished thread, then unrelated threads on the recycled objects pass interruption points
@@ -99,11 +100,12 @@ FINDING_RUNS = {
 
 e2check.run(dict(
     finding_runs=FINDING_RUNS,
-    prop='C13', model='join', harness='e2/join.cpp', bin='e2_join', props=['C13', 'C13m'],
+    prop='C13', model='join', harness='e2/join.cpp', bin='e2_join', props=['C13', 'C13m', 'C13j'],
     runs=runs, extra_runs=extra_runs, nontrivial=nontrivial, stats=stats, par=3, timeout_s=900,
     rule='generated scenarios on the live runtime (thread bodies: immediate, yielding, long running, blocking on a semaphore, spawning and joining further threads; joiners on other tasks after random delays; double join, join after detach, self join; user exit callbacks registered through add_thread_exit_callback while the target exits; two concurrent joiners of one handle; handle operations: move construction / move assignment / swap / vectors of handles / re-binding a joined handle / jthread moves / a handle moved away while another task is suspended in join on it, every destructor logged; interrupt() against bodies with enabled/disabled interruption sections and a bystander; jthread destructors at random times) for every scheduling policy and several worker counts, with PRNG timing perturbation at the instrumented sites (join window, exit-callback window); non-trivial = at least one joiner was suspended and woken by an exit callback; distinct = distinct argv',
     assumptions=['wake-up of a suspended joiner is modelled with wake-up tokens (agent contract; C02 covers the scheduler side); the acceptor checks on every run that a joiner only wakes after a resume_thread aimed at it',
                  'interruption of a task while it is suspended inside join is outside the main model (the default programs do not produce it; the acceptor would reject such logs): the code as it is leaves the exit callback of an interrupted join registered, which can release a later join early - finding interrupted-join-stale-callback, model IJ in Props/C13m.lean with the machine-checked counterexample, directed program `e2_join 1 0 joinintr 1 --pika:threads=3`',
+                 'user code that handles thread_interrupted and carries on is outside the main model (which treats a delivery as the end of the thread function): the directed program joinpend (request pending when join is entered, handled, second join) is replayed through the separate acceptor JoinCatch (every hook event judged by the same Join.step, plus the inferred event `caught`; Props/C13j.lean), one worker only',
                  'concurrent moves of the same two handles in opposite directions and self move-assignment / self swap (both lock two spinlocks in argument order) are not generated',
                  'this_thread::yield() is declared noexcept although it is an interruption point: a delivered interruption there calls std::terminate (finding, notes/C13.md); interruptible harness bodies suspend through this_thread::suspend'],
 ))
